@@ -4,6 +4,7 @@ From BBF Require Import Base.Prelude Base.Names Base.Bits Spec.Sem
      Proofs.ExprProofs Proofs.TableProofs Proofs.QuantProofs Proofs.NfProofs Proofs.DdProofs Proofs.BddProofs Proofs.BddOps
      Proofs.ConvProofs Proofs.RenderProofs Proofs.EnumProofs Proofs.CountProofs Proofs.EnumAgree.
 From BBF Require Import Model.Lexer Model.Parser Model.Display Model.Render Model.Csv Model.Prog Proofs.ProgProofs Proofs.ConvChain Proofs.ObsProofs.
+From BBF Require Import Model.Iter Proofs.IterProofs.
 Theorem C10_domain_size : forall n, length (points n) = 2 ^ n.
 Proof. exact points_length. Qed.
 Print Assumptions C10_domain_size.
@@ -77,6 +78,80 @@ Theorem C10_object : forall o, owf o ->
   (obj_sat_point o = None <-> obj_support o = []).
 Proof. exact obj_enumerations_spec. Qed.
 Print Assumptions C10_object.
+
+(* ---- the iterator structs as state machines (Model/Iter.v mirrors `next` of each struct) ----
+   The i-th call of next() on a fresh iterator returns the i-th item of the enumeration, and None from the end
+   of the enumeration on, for every number k of calls (so the iterators are lazy, exact and fused). *)
+Theorem C10_iter_domain : forall n k, steps dom_next k (dom_new n) = map (nth_error (points n)) (seq 0 k).
+Proof. exact dom_steps_spec. Qed.
+Print Assumptions C10_iter_domain.
+
+Theorem C10_iter_expr : forall e k,
+  steps e_img_next k (e_it_new e) = map (nth_error (e_image e)) (seq 0 k) /\
+  steps e_rel_next k (e_it_new e) = map (nth_error (e_relation e)) (seq 0 k) /\
+  steps e_sup_next k (e_it_new e) = map (nth_error (e_support e)) (seq 0 k).
+Proof. intros e k. exact (conj (e_img_steps_spec e k) (conj (e_rel_steps_spec e k) (e_sup_steps_spec e k))). Qed.
+Print Assumptions C10_iter_expr.
+
+Theorem C10_iter_table : forall t k,
+  steps t_img_next k (t_img_new t) = map (nth_error (t_image t)) (seq 0 k) /\
+  steps t_rel_next k (t_rel_new t) = map (nth_error (t_relation t)) (seq 0 k) /\
+  steps t_sup_next k (t_sup_new t) = map (nth_error (t_support t)) (seq 0 k).
+Proof. intros t k. exact (conj (t_img_steps_spec t k) (conj (t_rel_steps_spec t k) (t_sup_steps_spec t k))). Qed.
+Print Assumptions C10_iter_table.
+
+Theorem C10_iter_bdd : forall b k,
+  steps b_img_next k (b_img_new b) = map (nth_error (b_image b)) (seq 0 k) /\
+  steps b_rel_next k (b_rel_new b) = map (nth_error (b_relation b)) (seq 0 k).
+Proof. intros b k. exact (conj (b_img_steps_spec b k) (b_rel_steps_spec b k)). Qed.
+Print Assumptions C10_iter_bdd.
+
+(* what the model runner prints for an object: the answers of k calls on fresh iterators of the four kinds *)
+Theorem C10_iter_object : forall o k,
+  obj_dom_steps o k = map (nth_error (obj_domain o)) (seq 0 k) /\
+  obj_img_steps o k = map (nth_error (obj_image o)) (seq 0 k) /\
+  obj_rel_steps o k = map (nth_error (obj_relation o)) (seq 0 k) /\
+  (forall l, obj_sup_steps o k = Some l -> l = map (nth_error (obj_support o)) (seq 0 k)).
+Proof. exact obj_iter_spec. Qed.
+Print Assumptions C10_iter_object.
+
+(* once an iterator has answered None it answers None for ever *)
+Theorem C10_iter_fused : forall (A : Type) (L : list A) i j, i <= j -> nth_error L i = None -> nth_error L j = None.
+Proof. exact @answers_fused. Qed.
+Print Assumptions C10_iter_fused.
+
+(* Iterator's default methods, which the code does not override, on these machines: collect, nth then next,
+   count, last *)
+Theorem C10_iter_collect : forall n fuel, 2 ^ n < fuel -> drain dom_next fuel (dom_new n) = points n.
+Proof. exact dom_collect. Qed.
+Print Assumptions C10_iter_collect.
+
+Theorem C10_iter_collect_support : forall e fuel, 2 ^ length (literals e) < fuel -> drain e_sup_next fuel (e_it_new e) = e_support e.
+Proof. exact e_sup_collect. Qed.
+Print Assumptions C10_iter_collect_support.
+
+Theorem C10_iter_nth : forall o n,
+  obj_dom_nth o n = (nth_error (obj_domain o) n, nth_error (obj_domain o) (S n)) /\
+  obj_rel_nth o n = (nth_error (obj_relation o) n, nth_error (obj_relation o) (S n)).
+Proof. intros o n. exact (conj (obj_dom_nth_spec o n) (obj_rel_nth_spec o n)). Qed.
+Print Assumptions C10_iter_nth.
+
+Theorem C10_iter_count_last : forall o,
+  obj_img_count o = length (obj_image o) /\ obj_dom_last o = last (map Some (obj_domain o)) None.
+Proof. intros o. exact (conj (obj_img_count_spec o) (obj_dom_last_spec o)). Qed.
+Print Assumptions C10_iter_count_last.
+
+(* count() and last() of a partly consumed iterator (after nth(n) and one more next()): what is left of the list *)
+Theorem C10_iter_partly_consumed : forall o n,
+  obj_dom_rest o n = (length (skipn (S (S n)) (obj_domain o)), last (map Some (skipn (S (S n)) (obj_domain o))) None) /\
+  obj_img_rest o n = length (skipn (S (S n)) (obj_image o)).
+Proof. intros o n. exact (conj (obj_dom_rest_spec o n) (obj_img_rest_spec o n)). Qed.
+Print Assumptions C10_iter_partly_consumed.
+
+Example C10_iter_example :
+  steps e_sup_next 3 (e_it_new (Or [Lit [97%N]; Lit [98%N]])) = [Some [false; true]; Some [true; false]; Some [true; true]]
+  /\ steps e_sup_next 5 (e_it_new (And [Lit [97%N]; Lit [98%N]])) = [Some [true; true]; None; None; None; None].
+Proof. split; reflexivity. Qed.
 
 Example C10_example : e_relation (And [Lit [97%N]; Not (Lit [98%N])]) =
   [([false; false], false); ([false; true], false); ([true; false], true); ([true; true], false)].
